@@ -38,41 +38,53 @@ Definition checksum_rd (bs : list N) (n : N) : option N :=
 
 Inductive vres := VOob | VReject (st : N) | VOk.
 
+(* memcpy(&header, data, sizeof(header)) followed by field accesses: the 23 header bytes
+   (offsets checked against Gen.OFF_* in Properties.c05_layout) and what follows them *)
+Record hdr := { h_ssc : N; h_ml : N; h_dst : list N; h_src : list N; h_tn : N; h_port : N;
+                h_mc : N; h_sub : list N; h_cc : N; h_pid : list N; h_pdl : N }.
+
+Definition split_header (bs : list N) : option (hdr * list N) :=
+  match bs with
+  | ssc :: ml :: d0 :: d1 :: d2 :: d3 :: d4 :: d5 :: s0 :: s1 :: s2 :: s3 :: s4 :: s5 ::
+    tn :: port :: mc :: sub0 :: sub1 :: cc :: pid0 :: pid1 :: pdl :: rest =>
+    Some ({| h_ssc := ssc; h_ml := ml; h_dst := [d0; d1; d2; d3; d4; d5];
+             h_src := [s0; s1; s2; s3; s4; s5]; h_tn := tn; h_port := port; h_mc := mc;
+             h_sub := [sub0; sub1]; h_cc := cc; h_pid := [pid0; pid1]; h_pdl := pdl |}, rest)
+  | _ => None
+  end.
+
 (* RDMCommand::VerifyData *)
 Definition verify (bs : list N) : vres :=
   let length := len bs in
   if length <? HEADER_SIZE then VReject RDM_PACKET_TOO_SHORT else
-  match rd bs 0, rd bs 1, rd bs 22 with
-  | Some ssc, Some ml, Some pdl =>
-    if negb (ssc =? SUB_START_CODE) then VReject RDM_WRONG_SUB_START_CODE else
+  match split_header bs with
+  | None => VOob
+  | Some (h, _) =>
+    let ml := h_ml h in
+    if negb (h_ssc h =? SUB_START_CODE) then VReject RDM_WRONG_SUB_START_CODE else
     if length <? ml + 1 then VReject RDM_PACKET_LENGTH_MISMATCH else
     if ml <? HEADER_SIZE + 1 then VReject RDM_PACKET_LENGTH_MISMATCH else
     match checksum_rd bs (usub32 ml 1), rd bs (usub32 ml 1), rd bs ml with
     | Some ck, Some hi, Some lo =>
       if negb (join16 hi lo =? ck) then VReject RDM_CHECKSUM_INCORRECT else
       (* unsigned int block_size = length - sizeof(header) - 2 *)
-      if usub32 (usub32 length HEADER_SIZE) 2 <? pdl then VReject RDM_PARAM_LENGTH_MISMATCH
+      if usub32 (usub32 length HEADER_SIZE) 2 <? h_pdl h then VReject RDM_PARAM_LENGTH_MISMATCH
       else VOk
     | _, _, _ => VOob
     end
-  | _, _, _ => VOob
   end.
 
-Definition slice (bs : list N) (off n : N) : option (list N) :=
-  if off + n <=? len bs then Some (take n (drop off bs)) else None.
-
-(* the decoded header fields + parameter data, shared by all InflateFromData *)
+(* the decoded header fields + parameter data (data + sizeof(header), pdl bytes),
+   shared by all InflateFromData *)
 Definition fields (bs : list N) : option cmd :=
-  match slice bs 2 6, slice bs 8 6, rd bs 14, rd bs 15, rd bs 16,
-        slice bs 17 2, rd bs 19, slice bs 20 2, rd bs 22 with
-  | Some d, Some s, Some tn, Some port, Some mc, Some sub, Some cc, Some pid, Some pdl =>
-    match slice bs HEADER_SIZE pdl with
-    | Some data => Some {| c_dst := be_val d; c_src := be_val s; c_tn := tn; c_port := port;
-                           c_mc := mc; c_sub := be_val sub; c_cc := cc; c_pid := be_val pid;
-                           c_data := data |}
-    | None => None
-    end
-  | _, _, _, _, _, _, _, _, _ => None
+  match split_header bs with
+  | None => None
+  | Some (h, rest) =>
+    if h_pdl h <=? len rest then
+      Some {| c_dst := be_val (h_dst h); c_src := be_val (h_src h); c_tn := h_tn h;
+              c_port := h_port h; c_mc := h_mc h; c_sub := be_val (h_sub h); c_cc := h_cc h;
+              c_pid := be_val (h_pid h); c_data := take (h_pdl h) rest |}
+    else None
   end.
 
 Definition is_cc (x : N) : bool :=
@@ -184,7 +196,7 @@ Definition pack (c : cmd) : option (list N) := pack_o default_opts c.
 (* a command value constructible through the API *)
 Definition wf_cmd (c : cmd) : bool :=
   (c_dst c <? 2^48) && (c_src c <? 2^48) && (c_tn c <? 256) && (c_port c <? 256) &&
-  (c_mc c <? 256) && (c_sub c <? 65536) && (c_pid c <? 65536) && bytes_ok (c_data c) &&
+  (c_mc c <? 256) && (c_sub c <? 65536) && (c_cc c <? 256) && (c_pid c <? 65536) && bytes_ok (c_data c) &&
   (len (c_data c) <=? MAX_PARAM_DATA_LENGTH).
 
 (* RDMCommand::operator== ignores the port id / response type *)
